@@ -66,7 +66,24 @@ def oracle(case):
     node.run_operation_handler = _sim_handler(case["sim"])
     node.constants.update({k: str(v) for k, v in case.get("constants", {}).items()})
     ctx = ExecutionContext(key=key, shell=fake_node.shell(node))
-    opg = OperationGroup(context=ctx, contents=[_blank(c) for c in case["contents"]])
+    blanks = [_blank(c) for c in case["contents"]]
+    route = case.get("route")
+    try:
+        if route in ("bulk-of-autofilled", "bulk-of-filled") and len(blanks) >= 2:
+            # every member was priced on its own first (to look at its cost), then the batch is assembled with client.bulk()
+            from pytezos.client import PyTezosClient
+            members = [OperationGroup(context=ctx, contents=[b]) for b in blanks]
+            members = [m.autofill() if route == "bulk-of-autofilled" else m.fill() for m in members]
+            opg = PyTezosClient(context=ctx).bulk(*members)
+        elif route in ("append-after-autofill", "append-after-fill") and len(blanks) >= 2:
+            # a group that was already priced gets one more content and is priced again
+            first = OperationGroup(context=ctx, contents=blanks[:-1])
+            first = first.autofill() if route == "append-after-autofill" else first.fill()
+            opg = first.operation(blanks[-1])
+        else:
+            opg = OperationGroup(context=ctx, contents=blanks)
+    except Exception as e:
+        raise Violation("building the group (%s) raised %r" % (route, e), case, "raise:build:%s" % type(e).__name__)
     mode = case["mode"]
     try:
         kw = {k: v for k, v in (("gas_reserve", case.get("gas_reserve")), ("burn_reserve", case.get("burn_reserve"))) if v is not None}
@@ -132,7 +149,11 @@ def cases(draw, curves, max_n, big=True):
     if draw(st.integers(0, 2)) == 0:  # the caller's safety margins for simulated limits (autofill / send take them)
         reserves = {"gas_reserve": draw(st.sampled_from([0, 1, 99, 150, 500, 1111, 5000, 20000])),
                     "burn_reserve": draw(st.sampled_from([None, 0, 1000]))}
+    route = None
+    if n >= 2 and n <= 6 and draw(st.integers(0, 3)) == 0:
+        route = draw(st.sampled_from(["bulk-of-autofilled", "bulk-of-filled", "append-after-autofill", "append-after-fill"]))
     return {"curve": curve, "secret": sec.hex(), "contents": contents, "sim": sim, "mode": draw(st.sampled_from(["fill", "autofill", "autofill"])),
+            "route": route,
             "constants": constants, **reserves,
             "node_counter": draw(st.one_of(st.integers(0, 1000), st.sampled_from([127, 128, 2 ** 14 - 1, 2 ** 32, 2 ** 63, 2 ** 64 - 2])))}
 
@@ -147,6 +168,8 @@ def _prop(case, stats):
         stats.label("homogeneous-batch")
     if case.get("gas_reserve") is not None:
         stats.label("caller-reserves")
+    if case.get("route"):
+        stats.label("route:" + case["route"])
     stats.case(case, nt, "%s:%s:n=%s" % (case["mode"], case["curve"], "1" if len(case["contents"]) == 1 else "2+"),
                sample={"mode": case["mode"], "curve": case["curve"], "kinds": [c["kind"] for c in case["contents"]],
                        "fee": fees, "minimum_nanotez": need, "size": size, "gas": gas})
